@@ -948,7 +948,23 @@ func (g *qgen) rfChain(schema []qcol, n int) ([]string, []qcol) {
 		if len(schema) == 0 {
 			break
 		}
-		switch g.weighted(30, 10, 10, 12, 8, 15, 15) {
+		switch g.weighted(30, 10, 10, 12, 8, 15, 15, 9) {
+		case 7: // aligner: every field must be numeric; mostly preceded by a projection to the numeric columns
+			var num, other []string
+			var numCols []qcol
+			for _, c := range schema {
+				if c.dt == "int" || c.dt == "dec" {
+					num = append(num, qQ(c.urn))
+					numCols = append(numCols, c)
+				} else {
+					other = append(other, qQ(c.urn))
+				}
+			}
+			if len(other) > 0 && len(num) > 0 && g.r.Intn(4) > 0 {
+				out = append(out, qT(append([]string{"drop"}, other...)...))
+				schema = numCols
+			}
+			out = append(out, g.alignFilter())
 		case 0: // append
 			v, t := g.val(schema, g.prefDt(schema), 0, nil, g.depth())
 			urn, ou := g.fresh(), g.ounit()
@@ -1148,7 +1164,15 @@ func (g *qgen) dfChain(c qcol, n int, allowFval bool) ([]string, qcol) {
 		if !allowFval {
 			wf = 0
 		}
-		switch g.weighted(wf, ww, wo) {
+		wx := 22 // stream filters: aligner / delta / rate (not in tw pipelines: they have no report-API twin)
+		if g.tw {
+			wx = 0
+		}
+		switch g.weighted(wf, ww, wo, wx) {
+		case 3:
+			f, c2 := g.streamFilterD(c)
+			out = append(out, f)
+			c = c2
 		case 0:
 			v, t := g.val([]qcol{c}, g.prefDt([]qcol{c}), 0, nil, g.depth())
 			urn, ou := c.urn, g.ounit()
@@ -1186,6 +1210,39 @@ func (g *qgen) dfChain(c qcol, n int, allowFval bool) ([]string, qcol) {
 		}
 	}
 	return out, c
+}
+
+// alignFilter: a random aligner filter (fixed period on or off the row grid; with / without fill mode).
+func (g *qgen) alignFilter() string {
+	p := []string{"1000000000", "2000000000", "3000000000", "500000000", "1500000000", "7000000000"}[g.weighted(30, 25, 15, 10, 10, 10)]
+	switch g.weighted(40, 28, 28, 4) {
+	case 1:
+		return qT("alignfill", p, "linear")
+	case 2:
+		return qT("alignfill", p, "forward")
+	case 3:
+		return qT("alignfill", p, "bogus")
+	}
+	return qT("align", p)
+}
+
+func (g *qgen) maxCounter() string {
+	return []string{"0", "16", "100", "-5", "d:3fe0000000000000", "d:7ff8000000000001", "d:7ff0000000000000", "9223372036854775807"}[g.weighted(30, 25, 20, 5, 5, 5, 5, 5)]
+}
+
+// streamFilterD: a random stream filter of package datasource over column c and the column it declares.  No
+// mutation is needed for invalid uses: c is of a random type / optionality, so non-numeric and optional fields occur.
+func (g *qgen) streamFilterD(c qcol) (string, qcol) {
+	nn := []string{"0", "1"}[g.r.Intn(2)]
+	switch g.weighted(40, 30, 30) {
+	case 1:
+		return qT("delta", nn, g.maxCounter()), c
+	case 2:
+		u := g.ounit()
+		ps := []string{"1", "60", "0", "-3", "3600"}[g.weighted(35, 30, 15, 10, 10)]
+		return qT("rate", qQ(u), ps, nn, g.maxCounter()), qcol{c.urn, "dec", true, u}
+	}
+	return g.alignFilter(), c
 }
 
 // ---- datasource trees
@@ -1855,6 +1912,7 @@ func genC10(c *Ctx) {
 		e.emit(text, nonconf)
 	}
 	// phase 3: spec-only cases for the filters outside the model (stand-alone aligners, delta, rate)
-	genC10X(e, c)
+	genC10Stream(e, c)
+	genC10Cal(e, c)
 	e.summary("C10")
 }
